@@ -1,10 +1,178 @@
-import EpModel.Driver.Util
-/- `dec.*` and `spec.dec.*` operations (stub; filled in by the owner of this family). -/
+import EpModel.Driver.DecRender
+/- `dec.*` operations: every decoding door of the model. -/
 namespace EpModel.Driver.Dec
-open EpModel EpModel.Driver
+open EpModel EpModel.Driver EpModel.Dec EpModel.Driver.DecRender
+
+def errS (e : PErr) : String := s!"err({perr e})"
+def lenErrS (e : LenError) : String := s!"err({lenErr e})"
+
+def ipStrict (g : Mem) (slice : Bool) (r : Except PErr IpR) : String :=
+  match r with
+  | .error e => errS e
+  | .ok ip =>
+    if slice then s!"ok(ip={ipSlice g ip};stop=none)"
+    else s!"ok(ip={hIp g ip};pl={ipPl ip.pl};stop=none)"
+
+def ipLax (g : Mem) (slice : Bool) (r : Except PErr (IpR × Option (PErr × Layer))) : String :=
+  match r with
+  | .error e => errS e
+  | .ok (ip, st) =>
+    if slice then s!"ok(ip={ipSlice g ip};stop={stop st})"
+    else s!"ok(ip={hIp g ip};pl={ipPl ip.pl};stop={stop st})"
+
+def extsOut (g : Mem) (sm : Bool) (nh l : Nat) (r : ExtsOut) : String :=
+  let first := extsFirst nh l r
+  let body :=
+    if sm then
+      let fr := match r.slots.frag with
+        | none => "none"
+        | some s => s!"frag({fragFields g s.o})"
+      s!"hbh={hRaw g r.slots.hbh},dest={hRaw g r.slots.dest},routing={hRaw g r.slots.routing},fdest={hRaw g r.slots.finalDest},frag={fr},auth={hAuth g r.slots.auth}"
+    else
+      let it := match extIterAll g (first.getD 17) 0 (l - r.rest.l) with
+        | .ok xs => "[" ++ joinWith "," (xs.map (extItem g)) ++ "]"
+        | .error _ => "fault"
+      s!"s={w ⟨0, l - r.rest.l⟩},first={optNat first},iter={it}"
+  s!"ok({body};next={r.next};frag={b01 r.frag};rest={w r.rest};stop={stop (r.stop.map (fun (e, ly) => (extErrToPErr e, ly)))})"
 
 def run (op : String) (args : List String) : Option String :=
   match op, args with
+  -- whole packet: slices
+  | "dec.sp_eth", [h] => do
+      let b ← argHex h; let g := memOf b
+      pure (match slicedFromEthernet g b.length with | .ok p => packet g p | .error e => errS e)
+  | "dec.sp_sll", [h] => do
+      let b ← argHex h; let g := memOf b
+      pure (match slicedFromLinuxSll g b.length with | .ok p => packet g p | .error e => errS e)
+  | "dec.sp_et", [et, h] => do
+      let et ← argNat et; let b ← argHex h; let g := memOf b
+      pure (match slicedFromEtherType g et b.length with | .ok p => packet g p | .error e => errS e)
+  | "dec.sp_ip", [h] => do
+      let b ← argHex h; let g := memOf b
+      pure (match slicedFromIp g b.length with | .ok p => packet g p | .error e => errS e)
+  | "dec.lsp_eth", [h] => do
+      let b ← argHex h; let g := memOf b
+      pure (match laxSlicedFromEthernet g b.length with | .ok p => packet g p | .error e => lenErrS e)
+  | "dec.lsp_et", [et, h] => do
+      let et ← argNat et; let b ← argHex h; let g := memOf b
+      pure (packet g (laxSlicedFromEtherType g et b.length))
+  | "dec.lsp_ip", [h] => do
+      let b ← argHex h; let g := memOf b
+      pure (match laxSlicedFromIp g b.length with | .ok p => packet g p | .error e => errS e)
+  -- whole packet: header structs
+  | "dec.ph_eth", [h] => do
+      let b ← argHex h; let g := memOf b
+      pure (match phFromEthernet g b.length with | .ok p => headers g p | .error e => errS e)
+  | "dec.ph_et", [et, h] => do
+      let et ← argNat et; let b ← argHex h; let g := memOf b
+      pure (match phFromEtherType g et 0 b.length with | .ok p => headers g p | .error e => errS e)
+  | "dec.ph_ip", [h] => do
+      let b ← argHex h; let g := memOf b
+      pure (match phFromIp g b.length with | .ok p => headers g p | .error e => errS e)
+  | "dec.lph_eth", [h] => do
+      let b ← argHex h; let g := memOf b
+      pure (match lphFromEthernet g b.length with | .ok p => headers g p | .error e => lenErrS e)
+  | "dec.lph_sll", [h] => do
+      let b ← argHex h; let g := memOf b
+      pure (match lphFromLinuxSll g b.length with | .ok p => headers g p | .error e => errS e)
+  | "dec.lph_et", [et, h] => do
+      let et ← argNat et; let b ← argHex h; let g := memOf b
+      pure (headers g (lphFromEtherType g et 0 b.length))
+  | "dec.lph_ip", [h] => do
+      let b ← argHex h; let g := memOf b
+      pure (match lphFromIp g b.length with | .ok p => headers g p | .error e => errS e)
+  -- the IP boundary implementations
+  | "dec.ip_slice", [h] => do
+      let b ← argHex h; let g := memOf b; pure (ipStrict g true (ipSliceFromSlice g 0 b.length))
+  | "dec.ipv4_slice", [h] => do
+      let b ← argHex h; let g := memOf b; pure (ipStrict g true (ipv4SliceFromSlice g 0 b.length))
+  | "dec.ipv6_slice", [h] => do
+      let b ← argHex h; let g := memOf b; pure (ipStrict g true (ipv6SliceFromSlice g 0 b.length))
+  | "dec.ipv6_slice_lax", [h] => do
+      let b ← argHex h; let g := memOf b; pure (ipStrict g true (ipv6SliceFromSliceLax g 0 b.length))
+  | "dec.lax_ip_slice", [h] => do
+      let b ← argHex h; let g := memOf b; pure (ipLax g true (laxIpSliceFromSlice g 0 b.length))
+  | "dec.lax_ipv4_slice", [h] => do
+      let b ← argHex h; let g := memOf b; pure (ipLax g true (laxIpv4SliceFromSlice g 0 b.length))
+  | "dec.lax_ipv6_slice", [h] => do
+      let b ← argHex h; let g := memOf b; pure (ipLax g true (laxIpv6SliceFromSlice g 0 b.length))
+  | "dec.iph", [h] => do
+      let b ← argHex h; let g := memOf b; pure (ipStrict g false (ipHeadersFromSlice g 0 b.length))
+  | "dec.iph_lax", [h] => do
+      let b ← argHex h; let g := memOf b; pure (ipLax g false (ipHeadersFromSliceLax g 0 b.length))
+  | "dec.iph_v4", [h] => do
+      let b ← argHex h; let g := memOf b; pure (ipStrict g false (ipHeadersFromIpv4Slice g 0 b.length))
+  | "dec.iph_v4_lax", [h] => do
+      let b ← argHex h; let g := memOf b; pure (ipLax g false (ipHeadersFromIpv4SliceLax g 0 b.length))
+  | "dec.iph_v6", [h] => do
+      let b ← argHex h; let g := memOf b; pure (ipStrict g false (ipHeadersFromIpv6Slice g 0 b.length))
+  | "dec.iph_v6_lax", [h] => do
+      let b ← argHex h; let g := memOf b; pure (ipLax g false (ipHeadersFromIpv6SliceLax g 0 b.length))
+  -- extension chains
+  | "dec.exts", [nh, h] => do
+      let nh ← argNat nh; let b ← argHex h; let g := memOf b
+      pure (match extsWalkStrict g false nh 0 b.length with
+        | .ok r => extsOut g false nh b.length r | .error e => errS (extErrToPErr e))
+  | "dec.exts_lax", [nh, h] => do
+      let nh ← argNat nh; let b ← argHex h; let g := memOf b
+      pure (extsOut g false nh b.length (extsWalk g false nh 0 b.length))
+  | "dec.exts_struct", [nh, h] => do
+      let nh ← argNat nh; let b ← argHex h; let g := memOf b
+      pure (match extsWalkStrict g true nh 0 b.length with
+        | .ok r => extsOut g true nh b.length r | .error e => errS (extErrToPErr e))
+  | "dec.exts_struct_lax", [nh, h] => do
+      let nh ← argNat nh; let b ← argHex h; let g := memOf b
+      pure (extsOut g true nh b.length (extsWalk g true nh 0 b.length))
+  -- single layers
+  | "dec.eth2", [h] => do
+      let b ← argHex h; let g := memOf b
+      pure (match eth2FromSlice 0 b.length with
+        | .ok s => s!"ok({link g (some (.eth2 s))};fcs=none)" | .error e => lenErrS e)
+  | "dec.eth2_fcs", [h] => do
+      let b ← argHex h; let g := memOf b
+      pure (match eth2FromSliceFcs 0 b.length with
+        | .ok s => s!"ok(eth2(s={w s},{eth2Fields g s.o},pl={w ⟨s.o + 14, s.l - 14 - 4⟩});fcs={memHex g (s.l - 4) 4})"
+        | .error e => lenErrS e)
+  | "dec.sll", [h] => do
+      let b ← argHex h; let g := memOf b
+      pure (match sllFromSlice g 0 b.length with
+        | .ok s => s!"ok({link g (some (.sll s))})" | .error e => errS e)
+  | "dec.vlan", [h] => do
+      let b ← argHex h; let g := memOf b
+      pure (match vlanFromSlice 0 b.length with
+        | .ok s => s!"ok({ext g (.vlan s)})" | .error e => lenErrS e)
+  | "dec.macsec", [h] => do
+      let b ← argHex h; let g := memOf b
+      pure (match macsecFromSlice g 0 b.length with
+        | .ok x => s!"ok({ext g x})" | .error e => errS e)
+  | "dec.lax_macsec", [h] => do
+      let b ← argHex h; let g := memOf b
+      pure (match laxMacsecFromSlice g 0 b.length with
+        | .ok x => s!"ok({ext g x})" | .error e => errS e)
+  | "dec.arp", [h] => do
+      let b ← argHex h; let g := memOf b
+      pure (match arpFromSlice g 0 b.length with
+        | .ok s => s!"ok({net g (some (.arp s))})" | .error e => lenErrS e)
+  | "dec.udp", [h] => do
+      let b ← argHex h; let g := memOf b
+      pure (match udpFromSlice g 0 b.length with
+        | .ok s => s!"ok({tp g (some (.udp s))})" | .error e => lenErrS e)
+  | "dec.udp_lax", [h] => do
+      let b ← argHex h; let g := memOf b
+      pure (match udpFromSliceLax g 0 b.length with
+        | .ok s => s!"ok({tp g (some (.udp s))})" | .error e => lenErrS e)
+  | "dec.tcp", [h] => do
+      let b ← argHex h; let g := memOf b
+      pure (match tcpFromSlice g 0 b.length with
+        | .ok hl => s!"ok({tp g (some (.tcp ⟨0, b.length⟩ hl))})" | .error e => errS e)
+  | "dec.icmp4", [h] => do
+      let b ← argHex h; let g := memOf b
+      pure (match icmp4FromSlice g 0 b.length with
+        | .ok s => s!"ok({tp g (some (.icmp4 s))})" | .error e => lenErrS e)
+  | "dec.icmp6", [h] => do
+      let b ← argHex h; let g := memOf b
+      pure (match icmp6FromSlice 0 b.length with
+        | .ok s => s!"ok({tp g (some (.icmp6 s))})" | .error e => lenErrS e)
   | _, _ => none
 
 end EpModel.Driver.Dec
